@@ -3,13 +3,19 @@ pub mod c02;
 pub mod c03;
 pub mod c04;
 pub mod c06;
+pub mod c07;
+pub mod c08;
+pub mod c10;
+pub mod c11;
+pub mod c12;
 pub mod c13;
 pub mod c14;
+pub mod c17;
 
 use crate::util::Oracle;
 
 pub fn oracle_by_name(name: &str) -> Option<Oracle> {
-	let all: &[&[(&str, Oracle)]] = &[c01::ORACLES, c02::ORACLES, c04::ORACLES, c06::ORACLES, c14::ORACLES];
+	let all: &[&[(&str, Oracle)]] = &[c01::ORACLES, c02::ORACLES, c04::ORACLES, c06::ORACLES, c07::ORACLES, c08::ORACLES, c10::ORACLES, c11::ORACLES, c14::ORACLES, c17::ORACLES];
 	for set in all {
 		for (n, f) in set.iter() {
 			if *n == name {
@@ -28,6 +34,12 @@ pub fn run(prop: &str) -> bool {
 		"C04" => c04::run(),
 		"C14" => c14::run(),
 		"C06" => c06::run(),
+		"C07" => c07::run(),
+		"C08" => c08::run(),
+		"C17" => c17::run(),
+		"C10" => c10::run(),
+		"C11" => c11::run(),
+		"C12" => c12::run(),
 		"C13" => c13::run(),
 		_ => return false,
 	}
